@@ -41,6 +41,11 @@ func TextConsumer() Consumer {
 
 		// If the buffer is empty, no need to unmarshal it, which causes a panic.
 		if len(b) == 0 {
+			// a string destination must not keep its previous content after an empty read
+			if v := reflect.ValueOf(data); v.Kind() == reflect.Ptr && !v.IsNil() && v.Elem().Kind() == reflect.String {
+				v.Elem().SetString("")
+			}
+
 			return nil
 		}
 
